@@ -56,6 +56,8 @@ pub struct DecPlanItem {
     pub full: bool,
     pub few_caps: bool,
     pub mixed: bool,
+    /// explicit per-call method set (implies mixed)
+    pub methods: Vec<(bool, Sink)>,
 }
 
 pub fn mk_cfg(it: &DecPlanItem, or: &Oracles, tag_chunk: &'static str, tag_single: &'static str, threads: usize) -> XCfg {
@@ -77,8 +79,9 @@ pub fn mk_cfg(it: &DecPlanItem, or: &Oracles, tag_chunk: &'static str, tag_singl
         tag_chunk,
         tag_single,
         few_caps: it.few_caps,
-        mixed: it.mixed,
-        mixed_sink: it.mixed && matches!(it.sink, Sink::Utf8 | Sink::Utf16),
+        mixed: it.mixed || !it.methods.is_empty(),
+        mixed_sink: it.mixed && it.methods.is_empty() && matches!(it.sink, Sink::Utf8 | Sink::Utf16),
+        methods: it.methods.clone(),
     }
 }
 
@@ -111,11 +114,11 @@ fn absorb(stats: &mut Stats, vios: &mut VioSet, label: &str, o: xdec::XOut) {
 }
 
 fn item(enc: &'static str, sink: Sink, repl: bool, bom: BomMode, k: usize, runs: &[usize]) -> DecPlanItem {
-    DecPlanItem { enc, sink, repl, bom, k, words: true, runs: runs.to_vec(), full: false, few_caps: false, mixed: false }
+    DecPlanItem { enc, sink, repl, bom, k, words: true, runs: runs.to_vec(), full: false, few_caps: false, mixed: false, methods: vec![] }
 }
 
 fn full_item(enc: &'static str, sink: Sink, repl: bool, k: usize) -> DecPlanItem {
-    DecPlanItem { enc, sink, repl, bom: BomMode::Off, k, words: false, runs: vec![], full: true, few_caps: true, mixed: false }
+    DecPlanItem { enc, sink, repl, bom: BomMode::Off, k, words: false, runs: vec![], full: true, few_caps: true, mixed: false, methods: vec![] }
 }
 
 /// decoders that carry output or method-dependent state from one call to the next
@@ -201,6 +204,12 @@ pub fn dec_plan(prop: &str, tier: Tier) -> Vec<DecPlanItem> {
                 v.push(item(e, Sink::Utf8, true, BomMode::Off, 2, runs));
                 v.push(item(e, Sink::Utf16, true, BomMode::Off, 2, runs));
                 v.push(item(e, Sink::Str, true, BomMode::Sniff, 1, &[]));
+                // the safe receivers in states that other methods left behind
+                if !q || MIXED_QUICK.contains(&e) {
+                    let mut it = item(e, Sink::Str, true, BomMode::Off, 2, &[]);
+                    it.methods = vec![(true, Sink::Str), (false, Sink::Str), (false, Sink::String), (false, Sink::Utf16)];
+                    v.push(it);
+                }
             }
         }
         "C06" => {
